@@ -613,3 +613,15 @@ def c19_r8(ctx):
                     ctx.note('caller %s passes %s to a forward-link combinator (exposed to known finding F5)' % (f.path, ':'.join(arg)))
     if n < 5:
         raise Inconclusive('fewer than 5 callers of Stream::replication found in all targets (%d)' % n)
+
+
+@rule('C01', 'R6', 'every keyed stream is partitioned by the same function: group_by, group_by_fold and both join sides route by the one fixed-seed hash of the key')
+def c01_r6(ctx):
+    """keyed joins connect their inputs forward (replica i to replica i) and rely on every keyed stream being partitioned alike; an
+    aggregate that shuffles with another hash is correct alone and wrong when composed - the result then depends on the parallelism"""
+    c03_r3(ctx)
+
+
+@rule('C08', 'R6', 'keyed joins meet co-partitioned inputs: every producer of a keyed stream (group_by, group_by_fold, join shipping) routes by the same fixed-seed hash of the key')
+def c08_r6(ctx):
+    c03_r3(ctx)
